@@ -122,7 +122,8 @@ type World struct {
 	PckCrl  CRLSpec
 	RootCrl CRLSpec
 
-	Times verify.TimeSet
+	Times  verify.TimeSet
+	NowNil bool // verify with Options.Now == nil (Times must then be the real current time)
 
 	// Outputs of Build
 	Raw  []byte
@@ -344,6 +345,9 @@ func (w *World) Options(l Level, g *Getter, pool *x509.CertPool) *verify.Options
 	}
 	ts := w.Times
 	o := &verify.Options{TrustedRoots: pool, Now: &ts}
+	if w.NowNil {
+		o.Now = nil
+	}
 	if g != nil {
 		o.Getter = g
 	} else {
@@ -358,6 +362,14 @@ func (w *World) Options(l Level, g *Getter, pool *x509.CertPool) *verify.Options
 		o.CheckRevocations = true
 	}
 	return o
+}
+
+// UseRealNow makes the world be judged at the real current time through the default time set
+// (Options.Now == nil). Call before applying time-relative faults and before Build.
+func (w *World) UseRealNow() {
+	now := time.Now()
+	w.Times = verify.TimeSet{PckCertChain: now, TcbInfo: now, QeIdentity: now, PckCrl: now, RootCaCrl: now}
+	w.NowNil = true
 }
 
 // FailGetter fails every request (used where no request may happen).
